@@ -373,7 +373,8 @@ func c08Attach(p *chk.Prog, r *chk.Report) {
 				x.Check(c.fn+":attach(all):every-pool", rs.Pos(), ok, "", "an advertisement that names no pool is not attached to every pool")
 			} else {
 				sel := definedBy(g, "selectedPools(POOLS, CR.Spec.IPAddressPoolSelectors)", chk.H("POOLS", poolCRs), chk.H("CR", cr))
-				ok := f.MatchWith("append(CR.Spec.IPAddressPools, SEL...)", rs.X, chk.H("CR", cr), chk.H("SEL", sel)) != nil
+				ok := f.MatchWith("append(CR.Spec.IPAddressPools, SEL...)", rs.X, chk.H("CR", cr), chk.H("SEL", sel)) != nil ||
+					f.MatchWith("slices.Concat(CR.Spec.IPAddressPools, SEL)", throughLocals(g, rs.X), chk.H("CR", cr), chk.H("SEL", sel)) != nil
 				name := rangeVal(f, rs)
 				ok = ok && definedBy(g, "M[N]", chk.H("M", poolMap), chk.H("N", name))(pl) && !loopHasBreak(g, rs)
 				x.Check(c.fn+":attach(named):named-and-selected-pools", rs.Pos(), ok, "", "the pools an advertisement is attached to are not exactly the named pools plus those selected by its pool selectors")
@@ -419,6 +420,40 @@ func c08AdvValid(p *chk.Prog, r *chk.Report) {
 				}
 				o := f.ObjOf(id)
 				defs := assignsTo(f, o)
+				if len(defs) == 1 {
+					// looked up by the group's family in a two-entry table made here: {IPv4: adv.AggregationLength,
+					// IPv6: adv.AggregationLengthV6}[ipfamily.ForCIDR(group[0])], set anew for every group
+					as, isAs := defs[0].(*ast.AssignStmt)
+					if !isAs || len(as.Rhs) != 1 || !chk.InBody(rs, as) {
+						return false
+					}
+					ix, isIx := ast.Unparen(as.Rhs[0]).(*ast.IndexExpr)
+					if !isIx || f.MatchWith("ipfamily.ForCIDR(G[0])", ix.Index, chk.H("G", grp)) == nil {
+						return false
+					}
+					mid, isM := ast.Unparen(ix.X).(*ast.Ident)
+					if !isM || len(assignsTo(f, f.ObjOf(mid))) != 1 {
+						return false
+					}
+					cl, isCl := ast.Unparen(f.LocalDef(mid)).(*ast.CompositeLit)
+					if !isCl || len(cl.Elts) != 2 {
+						return false
+					}
+					ok4, ok6 := false, false
+					for _, el := range cl.Elts {
+						kv, isKV := el.(*ast.KeyValueExpr)
+						if !isKV {
+							return false
+						}
+						switch {
+						case isObjNamed(f, "internal/ipfamily.IPv4")(kv.Key) && f.MatchWith("A.AggregationLength", kv.Value, chk.H("A", adv)) != nil:
+							ok4 = true
+						case isObjNamed(f, "internal/ipfamily.IPv6")(kv.Key) && f.MatchWith("A.AggregationLengthV6", kv.Value, chk.H("A", adv)) != nil:
+							ok6 = true
+						}
+					}
+					return ok4 && ok6
+				}
 				if len(defs) != 2 {
 					return false
 				}
